@@ -286,7 +286,7 @@ func runArmedHist(c *core.Ctx, drv string, ah *armedHist) {
 				d += "f"
 			}
 			j := &crashJob{
-				dir: d, cands: cands, cont: r.Range(3, 8),
+				dir: d, cands: cands, cont: r.Range(3, 8), chain: r.Intn(2),
 				label: fmt.Sprintf("%s_%s_%s", ah.armed.Kind, e.K, cut),
 				seed:  core.SubSeed(c.Seed, "C03C", ah.idx*1000+e.Seq),
 				replay: map[string]interface{}{"history": ah.idx, "shape": ah.shape, "flush_class": ah.class, "armed_statement": armedText, "row_operations": nOps, "log_records": nrec,
